@@ -57,6 +57,32 @@ def _char_work(task):
     return n, fails, hist, nontrivial
 
 
+LIT_CHARS = list("018ulLUxbep.+'\"\\a")
+
+
+def _lit_work(task):
+    """All strings <= L over a literal-oriented alphabet, embedded as an
+    initializer: reaches the constant-typing code of the parser."""
+    first, L = task
+    n = 0
+    fails = []
+    hist = {}
+    nontrivial = 0
+    for l in range(0, L):
+        for rest in itertools.product(LIT_CHARS, repeat=l):
+            s = "int x = " + first + "".join(rest) + " ;"
+            out = core.parse_outcome(s, "f.c")
+            n += 1
+            k = out[0] if out[0] != "exc" else out[1]
+            hist[k] = hist.get(k, 0) + 1
+            if out[0] == "ok":
+                nontrivial += 1
+            sig = oracle(out, "f.c")
+            if sig is not None:
+                fails.append((sig, {"text": s, "filename": "f.c"}, out[-1]))
+    return n, fails, hist, nontrivial
+
+
 def _edit_work(task):
     name, toks, edits = task
     n = 0
@@ -175,6 +201,14 @@ def run(tier):
             nontriv += nt
             R.fail_many(fl)
             merge(h)
+
+    # (c2) literal-shaped strings through the parser
+    LL = 4 if quick else 5
+    for n, fl, h, nt in core.pmap(_lit_work, [(c, LL) for c in LIT_CHARS], chunksize=1):
+        char_runs += n
+        nontriv += nt
+        R.fail_many(fl)
+        merge(h)
 
     R.set("states", states)
     R.set("transitions", transitions)
